@@ -807,4 +807,92 @@ def Sys.run (E : Env) (fuel : Nat) : Sys → List Op → Sys × Outcome
     | (σ', .err) => Sys.run E fuel σ' ops
     | r => r
 
+/-! ## the height loops as Go runs them
+
+`Delete` and `Insert` assign `m.root`, `m.height` and the thresholds inside `shrink()` / `grow()`:
+when a later iteration of the loop fails, the iterations that completed have already changed the
+record.  `delete` / `insert` above return the record from before the loop in that case (their
+theorems are about outcomes `.ok`, and about what an error leaves in the HEAP); `deleteGo` /
+`insertGo` are the same calls with the record the Go code leaves — they are what the driver runs,
+and `Lemmas/PtrGo.lean` relates the two (same state, same outcome, same record whenever the
+outcome is `.ok`). -/
+
+def shrinkAllGo (E : Env) : Nat → PTree → PS → PS × PTree × Outcome
+  | 0, t, s => (s, t, .oof)
+  | f+1, t, s =>
+    match topEntryless t s with
+    | .ok el s1 =>
+      if t.height > 0 ∧ (t.size ≤ t.shrinkBelow ∨ el) then
+        match shrink E t s1 with
+        | .ok t' s2 => shrinkAllGo E f t' s2
+        | .err s2 => (s2, t, .err)
+        | .panic => (s1, t, .panic)
+        | .stuck => (s1, t, .stuck)
+        | .oof => (s1, t, .oof)
+      else (s1, t, .ok)
+    | .err s1 => (s1, t, .err)
+    | .panic => (s, t, .panic)
+    | .stuck => (s, t, .stuck)
+    | .oof => (s, t, .oof)
+
+/-- `Delete` with the record Go leaves when the height reduction fails part-way -/
+def deleteGo (E : Env) (fuel : Nat) (s : PS) (t : PTree) (key val : Nat) : PS × PTree × Outcome :=
+  match deletePlan E t fuel key val s with
+  | .err s1 => (s1, t, .err)
+  | .panic => (s, t, .panic)
+  | .stuck => (s, t, .stuck)
+  | .oof => (s, t, .oof)
+  | .ok p s1 =>
+    match deleteCommit t p s1 with
+    | .err s2 => (s2, t, .err)
+    | .panic => (s1, t, .panic)
+    | .stuck => (s1, t, .stuck)
+    | .oof => (s1, t, .oof)
+    | .ok root s2 => shrinkAllGo E fuel { t with root := root, size := t.size - 1 } s2
+
+def growAllGo (E : Env) : Nat → PTree → PS → PS × PTree × Outcome
+  | 0, t, s => (s, t, .oof)
+  | f+1, t, s =>
+    if t.size < t.growAfter then (s, t, .ok)
+    else
+      match (do let a ← load E t.root
+                let nd ← read a
+                canGrowM E t.height nd.keys : M Bool) s with
+      | .ok cg s1 =>
+        if cg then
+          match grow E t s1 with
+          | .ok t' s2 => growAllGo E f t' s2
+          | .err s2 => (s2, t, .err)
+          | .panic => (s1, t, .panic)
+          | .stuck => (s1, t, .stuck)
+          | .oof => (s1, t, .oof)
+        else (s1, t, .ok)
+      | .err s1 => (s1, t, .err)
+      | .panic => (s, t, .panic)
+      | .stuck => (s, t, .stuck)
+      | .oof => (s, t, .oof)
+
+/-- `Insert` with the record Go leaves when the growth loop fails part-way -/
+def insertGo (E : Env) (fuel : Nat) (s : PS) (t : PTree) (key val : Nat) : PS × PTree × Outcome :=
+  match insertPlan E t fuel key val s with
+  | .err s1 => (s1, t, .err)
+  | .panic => (s, t, .panic)
+  | .stuck => (s, t, .stuck)
+  | .oof => (s, t, .oof)
+  | .ok p s1 =>
+    if p.present && p.same then (s1, t, .ok)
+    else
+      match insertCommit t p key val s1 with
+      | .err s2 => (s2, t, .err)
+      | .panic => (s1, t, .panic)
+      | .stuck => (s1, t, .stuck)
+      | .oof => (s1, t, .oof)
+      | .ok root s2 =>
+        let t1 := { t with root := root }
+        if p.present then (s2, t1, .ok)
+        else
+          match growAllGo E fuel t1 s2 with
+          | (s3, t2, .ok) => (s3, { t2 with size := t2.size + 1 }, .ok)
+          | r => r
+
 end Mast.Ptr
